@@ -194,6 +194,10 @@ func readCurrentRegex(filePath string, ruleId string, chainOffset uint8) string 
 	foundRule := false
 	chainCount := uint8(0)
 	for index, line = range lines {
+		if regex.RuleCommentRegex.Match(line) {
+			// comments can mention rule IDs and contain commented-out rules
+			continue
+		}
 		if !foundRule && idRegex.Match(line) {
 			foundRule = true
 			if chainOffset == 0 {
